@@ -227,7 +227,8 @@ _add(("or1k",), "OR32_CONSTH", size=4, endian="big", kind="hi", decode=lambda w,
 # J/JAL: opcode(31..26) instr_index(25..0); target = (PC + 4)[31:28] : instr_index : 00, PC = address
 # of the jump (PC + 4 = its delay slot)
 _add(("mips",), "abs26", size=4, kind="branch",
-     decode=lambda w, P: (((P + 4) >> 28) << 28) | (bits(w, 25, 0) << 2), mask=0x03FFFFFF, pre=ALIGN4)
+     decode=lambda w, P: ((((P + 4) & M32) >> 28) << 28) | (bits(w, 25, 0) << 2), mask=0x03FFFFFF,
+     pre=ALIGN4, wrap=32)
 
 # ---- MicroBlaze (big-endian words) ----------------------------------------------------------
 # IMM prefix (imm16 = upper half) followed by a type B instruction (imm16 = lower half); both imm16
@@ -250,15 +251,15 @@ _add(XT, "bri12", size=3, kind="branch", decode=lambda w, P: P + 4 + sext(bits(w
 # CALL format: offset in bits 23..6; J: target = PC + 4 + sext(offset18)
 _add(XT, "call18", size=3, kind="branch", decode=lambda w, P: P + 4 + sext(bits(w, 23, 6), 18),
      mask=0xFFFFC0, pre=lambda S, P: True)
-# CALL0: target = ((PC >> 2) + sext(offset18) + 1) << 2
+# CALL0: target = (PC[31:2] + sext(offset18) + 1) : 00   (mod 2**32)
 _add(XT, "call0", size=3, kind="branch",
-     decode=lambda w, P: ((P >> 2) + sext(bits(w, 23, 6), 18) + 1) << 2,
-     mask=0xFFFFC0, pre=lambda S, P: S % 4 == 0)
-# L32R (RI16, imm16 in bits 23..8): address = ((PC + 3) & ~3) + ((imm16 - 2**16) << 2): the 16-bit word
-# offset is ONE-extended, the literal always lies before the instruction
+     decode=lambda w, P: (((P >> 2) + sext(bits(w, 23, 6), 18) + 1) << 2) & M32,
+     mask=0xFFFFC0, pre=lambda S, P: S % 4 == 0, wrap=32)
+# L32R (RI16, imm16 in bits 23..8): address = ((PC + 3) & ~3) + ((imm16 - 2**16) << 2) (mod 2**32): the
+# 16-bit word offset is ONE-extended, the literal always lies before the instruction
 _add(XT, "ri16", size=3, kind="branch",
-     decode=lambda w, P: (((P + 3) >> 2) << 2) + ((bits(w, 23, 8) - (1 << 16)) << 2),
-     mask=0xFFFF00, pre=lambda S, P: S % 4 == 0)
+     decode=lambda w, P: ((((P + 3) >> 2) << 2) + ((bits(w, 23, 8) - (1 << 16)) << 2)) & M32,
+     mask=0xFFFF00, pre=lambda S, P: S % 4 == 0, wrap=32)
 
 # ---- M68000 family (big-endian) -------------------------------------------------------------
 # Bcc/BRA/BSR with 8-bit displacement field 0xFF: a 32-bit displacement follows the opcode word;
